@@ -1,6 +1,30 @@
 #!/usr/bin/env python3
-"""setup_cmd: nothing to build (pure Python).  Verifies the interpreter and the
-libraries the checks need are present, offline."""
+"""setup_cmd: the checks are pure Python and import pyPRISM from the working tree, so there is nothing to build for
+C01-C17.  C18 runs the Cython extension, which the check builds on demand from the working tree's Debyer.pyx into
+/verif/build (git-ignored); this script verifies that the interpreter, the libraries and the compiler tool chain are
+present offline and warms that build cache."""
+import os
+import shutil
+import subprocess
 import sys
+
+HERE = os.path.dirname(os.path.dirname(os.path.abspath(__file__)))
 import numpy, scipy, pint  # noqa
 print('python', sys.version.split()[0], 'numpy', numpy.__version__, 'scipy', scipy.__version__, 'pint', pint.__version__)
+try:
+    import Cython
+    cc = shutil.which('gcc') or shutil.which('cc')
+    print('Cython', Cython.__version__, 'compiler', cc, subprocess.run([cc, '-dumpversion'], stdout=subprocess.PIPE, text=True).stdout.strip() if cc else None)
+except Exception as e:                      # C18 will then report that the extension cannot be built
+    print('WARNING: Cython / compiler not available:', e)
+    sys.exit(0)
+os.environ.setdefault('PYPRISM_REPO', '/repo')
+sys.path[:0] = [os.environ['PYPRISM_REPO'], HERE]
+try:
+    import warnings
+    warnings.simplefilter('ignore')
+    from mc.props import c18
+    mod, err = c18.ensure_built()
+    print('Debyer extension:', 'built and importable' if mod is not None else 'NOT built: %s' % (err or '')[:300])
+except Exception as e:
+    print('WARNING: could not warm the Debyer build cache:', type(e).__name__, e)
